@@ -648,17 +648,23 @@ def run(ctx):
         fn = mod_.func(qual)
         cs = [s for s in sites if s[1] == qual and s[5] == 'coulomb']
         blocks = {id(s[3]._parent._parent) for s in cs}
-        vals = set()
-        for s in cs:
-            for c in ast.walk(s[3]._parent._parent):
-                pass
-        exprs = []
-        for s in walk_no_nested(fn):
-            if isinstance(s, ast.Assign) and isinstance(s.value, (ast.Call, ast.List)):
-                t = norm(s.value)
-                if ('Determinant(' in t or t.startswith('[')) and '*' in t:
-                    exprs.append(t)
-        shared = {e.split('*')[-1].rstrip(')]').strip() for e in exprs if 'coulomb' in e or qual == 'add_coulomb_ion_pair'}
+        # value of each of the two determinants: (charge of its owner) x V, same V
+        can_ip = canon(fn)
+        shared = set()
+        for s_ in cs:
+            vexpr = det_value_expr(fn, s_[3])
+            e = can_ip.expr(vexpr) if vexpr is not None else None
+            owner_t = can_ip.text(s_[3].func.value.value.value) if isinstance(s_[3].func.value, ast.Subscript) \
+                and isinstance(s_[3].func.value.value, ast.Attribute) else s_[4]
+            if isinstance(e, ast.BinOp) and isinstance(e.op, ast.Mult):
+                sides = [e.left, e.right]
+                q = [x for x in sides if isinstance(x, ast.Attribute) and x.attr in ('charge', 'q')
+                     and norm(x.value) == owner_t]
+                rest_ = [x for x in sides if x not in q]
+                if len(q) == 1 and len(rest_) == 1:
+                    shared.add(norm(rest_[0]))
+                    continue
+            shared.add('?%s' % (norm(e) if e is not None else 'none'))
         ctx.ob('C16.R3', 'ion-pair:equal-and-opposite:' + qual,
                len(cs) == 2 and len(blocks) == 1 and len(shared) == 1,
                'the two Coulomb determinants of an acid-base pair are created in one block from '
